@@ -117,7 +117,9 @@ def templates(s, backend) -> List[Tuple[str, str, str]]:
     E = jet.replace("::", ".") + ".Color"
     T: List[Tuple[str, str, str]] = []
     for mth in ("nTrk", "m_uint", "m_short", "width", "isGood", "und", "t_big", "t_dbl"):
-        T += [(mth, "value", f"j.{mth}()"), (mth, "arith", f"(j.{mth}() * 2 + 1)"), (mth, "compare", f"(j.{mth}() > 1)")]
+        T += [(mth, "value", f"j.{mth}()"), (mth, "arith", f"(j.{mth}() * 2 + 1)"), (mth, "compare", f"(j.{mth}() > 1)"),
+              # the same bare value one level deeper: a vector-of-vectors column carries the declared (tree) type too
+              (mth, "nested_value", f"j.v_f().Select(lambda v: j.{mth}())")]
     for mth in ("o_val", "o_ptr", "o_cptr", "o_pp"):
         T += [(mth, "member", f"j.{mth}().val()"), (mth, "member_int", f"j.{mth}().n()"), (mth, "member_arith", f"(j.{mth}().val() + j.{mth}().n())"),
               (mth, "member_collection", f"j.{mth}().vals().Count()"), (mth, "member_collection_sum", f"j.{mth}().vals().Sum()"),
@@ -148,7 +150,7 @@ def templates(s, backend) -> List[Tuple[str, str, str]]:
     for mth in ("o_ptr", "o_pp", "w", "w2", "w2_p"):
         mem = "val()" if mth.startswith("o_") else "inner_val()"
         T += [(mth, "math_on_member", f"sqrt(abs(j.{mth}().{mem}))"), (mth, "math2_on_member", f"atan2(j.{mth}().{mem}, j.pt())"), (mth, "abs_on_member_arith", f"(abs(j.{mth}().{mem}) + 1)")]
-    T += [("enum", "compare", f"(j.color() == {E}.Red)"), ("enum", "compare_ne", f"(j.color() != {E}.Green)"), ("enum", "argument", f"j.isColor({E}.Blue)"), ("enum", "output", "j.color()"),
+    T += [("enum", "compare", f"(j.color() == {E}.Red)"), ("enum", "compare_ne", f"(j.color() != {E}.Green)"), ("enum", "argument", f"j.isColor({E}.Blue)"), ("enum", "output", "j.color()"), ("enum", "nested_output", "j.v_f().Select(lambda v: j.color())"),
           ("enum", "conditional", f"(1.0 if j.color() == {E}.Blue else 2.0)")]
     return T
 
@@ -272,11 +274,11 @@ def run(ctx: Ctx) -> int:
             br = r["run"]["book"][0]["branches"][0]["type"]
             base = br.replace("std::vector<", "").replace(">", "").strip()
             want = {"nTrk": "int", "m_uint": "unsigned int", "m_short": "short", "width": "float", "isGood": "bool", "und": "double", "t_big": "int", "t_dbl": "float"}
-            if t["template"] == "value" and t["form"] in want and base != want[t["form"]]:
+            if t["template"] in ("value", "nested_value") and t["form"] in want and base != want[t["form"]]:
                 why = f"column of a bare declared method {t['form']}() is booked as {br}, declared (tree) type is {want[t['form']]}"
             if t.get("want_type") and base != t["want_type"]:
                 why = f"user declaration overriding a backend default is not honoured: column booked as {br}, declared {t['want_type']}"
-            if t["form"] in ("enum", "enum3") and t["template"] == "output" and base != "int":
+            if t["form"] in ("enum", "enum3") and t["template"] in ("output", "nested_output") and base != "int":
                 why = f"enum output declared with tree_type int is booked as {br}"
             if t["form"] == "und":
                 logs = [l for l in r["translate"]["logs"] if l["level"] == "WARNING" and "::und(" in l["msg"] and "double" in l["msg"]]
